@@ -254,6 +254,9 @@ def enums(tier, seed):
     add("e_digits_underscores", ["A1", "a_1", "A_1", "_x", "X__"])
     # field-less per the Rust Reference: `Tuple()`, `Struct{}`, `Unit`; from_str.rs admits them (`fields.is_empty()`)
     add("e_unit_like_variants", ["A()", "B {}", "C"])
+    # non-ASCII names: only concrete inputs, real to_lowercase on both sides (the only place where "lower-case" is not ASCII:
+    # catches generated code that lower-cases differently from the macro, e.g. to_ascii_lowercase)
+    add("e_unicode", ["Ärger", "Foo", "Ünique", "ÜNIQUE"], symbolic=False)
     if tier == "thorough":
         add("e_raw_keywords", ["r#fn", "r#type", "r#match", "r#move", "r#async", "Plain"], L=16)
         add("e_raw_case_group", ["r#match", "Match", "MATCH", "r#loop"], L=16)
@@ -265,8 +268,6 @@ def enums(tier, seed):
         add("e_very_long_names", ["ALongVariantNameOf26Chars", "alongvariantnameof26chars", "AnotherVariantNameOf26Char"], symbolic=False)
         add("e_collide_L16", ["Foo", "Bar", "Ba", "BAR"], L=16)
         add("e_same_letters", ["Aa", "aA", "AA", "aa", "A", "a"], L=16)
-        # non-ASCII names: only concrete inputs, real to_lowercase on both sides
-        add("e_unicode", ["Ärger", "Foo", "Ünique", "ÜNIQUE"], symbolic=False)
         # random tail: case patterns over a small pool of words (no raw identifiers: those are covered systematically above)
         rnd = random.Random(1000 + seed)
         pool = ["a", "ab", "abc", "foo", "bar", "ba", "x1", "a_b", "zz", "baz", "q"]
